@@ -54,7 +54,7 @@ struct Case {
     k: usize,
     whiten: bool,
     /// memory layout of the records handed to fit / predict / transform:
-    /// "standard" | "col_major_owned" | "transposed_view" | "reversed_rows_view"
+    /// "standard" | "col_major_owned" | "transposed_view" | "reversed_rows_view" | "reversed_features_view"
     #[serde(default = "standard_layout")]
     layout: String,
 }
@@ -63,7 +63,7 @@ fn standard_layout() -> String {
     "standard".into()
 }
 
-const LAYOUTS: [&str; 4] = ["standard", "col_major_owned", "transposed_view", "reversed_rows_view"];
+const LAYOUTS: [&str; 5] = ["standard", "col_major_owned", "transposed_view", "reversed_rows_view", "reversed_features_view"];
 
 #[derive(Default, Clone, Debug)]
 struct Stats {
@@ -191,6 +191,12 @@ fn run_case(case: &Case, viols: &mut Vec<Violation>) -> Stats {
             // copy with the rows in reverse order, viewed through a negative row stride
             let rev = Array2::from_shape_fn((n, p), |(i, j)| case.x[n - 1 - i][j]);
             run_case_inner(case, rev.slice(ndarray::s![..;-1, ..]), viols, &mut sv, &mut fitted)
+        }
+        "reversed_features_view" => {
+            // copy with the features in reverse order, viewed through a negative column stride
+            // (`records.slice(s![.., ..;-1])`: contiguous in memory order, but not in logical order)
+            let rev = Array2::from_shape_fn((n, p), |(i, j)| case.x[i][p - 1 - j]);
+            run_case_inner(case, rev.slice(ndarray::s![.., ..;-1]), viols, &mut sv, &mut fitted)
         }
         _ => run_case_inner(case, to_arr(&case.x, p), viols, &mut sv, &mut fitted),
     };
@@ -381,7 +387,8 @@ where
         // numerically rank deficient for the solver (documented cut-off): only "does not panic"
         st.out_of_domain = true;
         if let Err(msg) = fit {
-            viols.push(Violation::new("pca.fit.panic", format!("fit panicked: {}", msg), cj()));
+            let sig = if msg == "NaN values in array" { "pca.fit.panic_nan_eigenvalues_inside_lobpcg" } else { "pca.fit.panic" };
+            viols.push(Violation::new(sig, format!("fit of a (numerically rank deficient, out-of-domain) {}x{} matrix with embedding size {} panicked: {}", n, p, k, msg), cj()));
         }
         return st;
     }
@@ -407,7 +414,14 @@ where
     let mean = model.mean().to_vec();
     let kk = comp.len();
     if kk != k || model.components().ncols() != p || sigma.len() != kk || mean.len() != p {
-        viols.push(Violation::new(
+        // fewer components than asked for, on data whose k-th eigenvalue is far above the null-space
+        // cut-off, means that the solver's eigenvalue estimates are off: solver family (classified)
+        let solver_dependent = kk < k && kk >= 1 && model.components().ncols() == p && sigma.len() == kk && mean.len() == p;
+        if solver_dependent {
+            *fitted = Some(Fitted { centred: &xa - model.mean(), sigma: sigma.clone(), mean: mean.clone(), comp: comp.clone() });
+        }
+        let sink: &mut Vec<Violation> = if solver_dependent { &mut *sv } else { &mut *viols };
+        sink.push(Violation::new(
             "pca.fit.wrong_shape",
             format!(
                 "embedding size {} on {}x{} data (lambda_k/lambda_1 = {:e}): components {}x{}, {} singular values, mean of length {}",
@@ -887,6 +901,14 @@ fn fit_outcome(params: &linfa_reduction::PcaParams, a: &Array2<f64>) -> (Result<
     }
 }
 
+fn bits_of(r: std::result::Result<linfa_reduction::Result<Pca<f64>>, String>) -> Result<Vec<Vec<u64>>, String> {
+    match r {
+        Ok(Ok(m)) => Ok(model_bits(&m)),
+        Ok(Err(e)) => Err(format!("Err({})", e)),
+        Err(p) => Err(format!("panic({})", p)),
+    }
+}
+
 fn run_history(case: &Case, viols: &mut Vec<Violation>) -> Stats {
     use linfa::traits::PredictInplace;
     let mut st = Stats::default();
@@ -1065,33 +1087,227 @@ fn run_history(case: &Case, viols: &mut Vec<Violation>) -> Stats {
         }
     }
 
-    // ---------------- (5) calling forms: arrays, array views, datasets, dataset views, owned / borrowed
+    // ---------------- (5) calling forms of predict / transform (core crate's blanket impls), on the whole
+    // batch and on ONE-ROW batches; data riding along (1-D / 2-D / F-order / reversed targets, weights,
+    // names) must come out of transform unchanged and must not influence the projection
     {
-        let targets = ndarray::Array1::from_iter((0..n).map(|i| i as f64));
-        let weights = ndarray::Array1::from_iter((0..n).map(|i| 1.0 + i as f32));
-        let forms = guarded(|| {
-            let ds = DatasetBase::new(a.clone(), targets.clone()).with_weights(weights.clone());
-            let mut out: Vec<(&str, Array2<f64>)> = Vec::new();
-            out.push(("predict(&array_view)", model.predict(&a.view())));
-            out.push(("predict(array) -> dataset.targets", model.predict(a.clone()).targets));
-            out.push(("predict(&dataset)", model.predict(&ds)));
-            out.push(("predict(&dataset.view())", model.predict(&ds.view())));
-            out.push(("predict(dataset) -> dataset.targets", model.predict(ds.clone()).targets));
-            out.push(("transform(dataset).records", model.transform(ds.clone()).records));
-            out.push(("transform(dataset.view()).records", model.transform(ds.view()).records));
-            out.push(("transform(unweighted dataset).records", model.transform(DatasetBase::from(a.clone())).records));
-            out
-        });
-        match forms {
-            Ok(out) => {
-                for (name, z) in out {
-                    st.history_steps += 1;
-                    if arr_bits(&z) != arr_bits(&za) {
-                        viols.push(Violation::new("pca.transform.calling_forms_differ", format!("{} differs from predict(&array) on the same records", name), cj()));
+        use ndarray::s;
+        let one_last = a.slice(s![n - 1..n, ..]).to_owned();
+        let one_first_b = b.slice(s![0..1, ..]).to_owned();
+        let batches: Vec<(&str, Array2<f64>)> = vec![("the whole batch A", a.clone()), ("the one-row batch A[n-1]", one_last), ("the one-row batch B[0]", one_first_b)];
+        for (bname, x) in &batches {
+            let m = x.nrows();
+            let want = match guarded(|| model.predict(x)) {
+                Ok(z) => z,
+                Err(msg) => {
+                    viols.push(Violation::new("pca.predict.panic", format!("predict(&array) on {} panicked: {}", bname, msg), cj()));
+                    continue;
+                }
+            };
+            let t1 = ndarray::Array1::from_iter((0..m).map(|i| 10.0 + i as f64));
+            // 2-D targets in column-major order
+            let mut t2 = Array2::<f64>::zeros((m, 2).f());
+            for i in 0..m {
+                t2[(i, 0)] = i as f64;
+                t2[(i, 1)] = -(i as f64) - 0.5;
+            }
+            let t1_rev_store = ndarray::Array1::from_iter((0..m).rev().map(|i| 10.0 + i as f64));
+            let weights = ndarray::Array1::from_iter((0..m).map(|i| 1.0 + i as f32));
+            let fnames: Vec<String> = (0..p).map(|j| format!("f{}", j)).collect();
+            let forms = guarded(|| {
+                let ds = DatasetBase::new(x.clone(), t1.clone()).with_weights(weights.clone()).with_feature_names(fnames.clone()).with_target_names(vec!["y"]);
+                let ds2 = DatasetBase::new(x.clone(), t2.clone()).with_weights(weights.clone()).with_target_names(vec!["u", "v"]);
+                let dsv = DatasetBase::new(x.view(), t1_rev_store.slice(s![..;-1])); // views, targets through a negative stride
+                let mut out: Vec<(&str, Array2<f64>)> = Vec::new();
+                let mut riders: Vec<String> = Vec::new();
+                out.push(("predict(&array_view)", model.predict(&x.view())));
+                let owned_arr = model.predict(x.clone());
+                if arr_bits(owned_arr.records()) != arr_bits(x) {
+                    riders.push("predict(array) does not hand the records back unchanged".into());
+                }
+                out.push(("predict(array) -> dataset.targets", owned_arr.targets));
+                out.push(("predict(&dataset)", model.predict(&ds)));
+                out.push(("predict(&dataset.view())", model.predict(&ds.view())));
+                out.push(("predict(&dataset with 2-D targets)", model.predict(&ds2)));
+                out.push(("predict(&dataset of views with reversed targets)", model.predict(&dsv)));
+                let owned_ds = model.predict(ds.clone());
+                if arr_bits(owned_ds.records()) != arr_bits(x) {
+                    riders.push("predict(dataset) does not hand the records back unchanged".into());
+                }
+                out.push(("predict(dataset) -> dataset.targets", owned_ds.targets));
+                let tr = model.transform(ds.clone());
+                if tr.targets() != &t1 || tr.weights().map(|w| w.to_vec()) != Some(weights.to_vec()) {
+                    riders.push(format!("transform(dataset): targets / weights changed (targets {:?}, weights {:?})", tr.targets(), tr.weights()));
+                }
+                out.push(("transform(dataset).records", tr.records));
+                let tr2 = model.transform(ds2.clone());
+                if tr2.targets() != &t2 || tr2.weights().map(|w| w.to_vec()) != Some(weights.to_vec()) {
+                    riders.push(format!("transform(dataset with column-major 2-D targets): targets / weights changed (targets {:?})", tr2.targets()));
+                }
+                out.push(("transform(dataset with 2-D targets).records", tr2.records));
+                let trv = model.transform(ds.view());
+                if trv.targets().to_owned() != t1 || trv.weights().map(|w| w.to_vec()) != Some(weights.to_vec()) {
+                    riders.push(format!("transform(dataset.view()): targets / weights changed (targets {:?}, weights {:?})", trv.targets(), trv.weights()));
+                }
+                out.push(("transform(dataset.view()).records", trv.records));
+                let trr = model.transform(dsv.clone());
+                if trr.targets().to_owned() != t1 {
+                    riders.push(format!("transform(dataset of views with reversed targets): targets changed to {:?}", trr.targets()));
+                }
+                out.push(("transform(dataset of views with reversed targets).records", trr.records));
+                out.push(("transform(unweighted dataset).records", model.transform(DatasetBase::from(x.clone())).records));
+                (out, riders)
+            });
+            match forms {
+                Ok((out, riders)) => {
+                    for (name, z) in out {
+                        st.history_steps += 1;
+                        if arr_bits(&z) != arr_bits(&want) {
+                            viols.push(Violation::new("pca.transform.calling_forms_differ", format!("{} on {} differs from predict(&array) on the same records", name, bname), cj()));
+                        }
+                    }
+                    for r in riders {
+                        viols.push(Violation::new("pca.transform.alters_data_riding_along", format!("{} ({})", r, bname), cj()));
                     }
                 }
+                Err(msg) => viols.push(Violation::new("pca.transform.panic", format!("a calling form of predict / transform on {} panicked: {}", bname, msg), cj())),
             }
-            Err(msg) => viols.push(Violation::new("pca.transform.panic", format!("a calling form of predict / transform panicked: {}", msg), cj())),
+        }
+    }
+
+    // ---------------- (6) calling forms of fit: what rides along in the dataset must not matter
+    {
+        use ndarray::s;
+        let t1 = ndarray::Array1::from_iter((0..n).map(|i| 10.0 + i as f64));
+        let mut t2 = Array2::<f64>::zeros((n, 2).f());
+        for i in 0..n {
+            t2[(i, 0)] = i as f64;
+            t2[(i, 1)] = 3.0 - i as f64;
+        }
+        let t1_rev_store = ndarray::Array1::from_iter((0..n).rev().map(|i| 10.0 + i as f64));
+        let weights = ndarray::Array1::from_iter((0..n).map(|i| 1.0 + i as f32));
+        let fnames: Vec<String> = (0..p).map(|j| format!("f{}", j)).collect();
+        let ds = DatasetBase::new(a.clone(), t1.clone()).with_weights(weights.clone()).with_feature_names(fnames);
+        let ds2 = DatasetBase::new(a.clone(), t2).with_weights(weights);
+        let dsv = DatasetBase::new(a.view(), t1_rev_store.slice(s![..;-1]));
+        let outs = vec![
+            ("fit(&dataset with 1-D targets, weights, feature names)", bits_of(guarded(|| canon.fit(&ds)))),
+            ("fit(&dataset.view())", bits_of(guarded(|| canon.fit(&ds.view())))),
+            ("fit(&dataset with column-major 2-D targets)", bits_of(guarded(|| canon.fit(&ds2)))),
+            ("fit(&dataset of views with reversed targets)", bits_of(guarded(|| canon.fit(&dsv)))),
+        ];
+        for (name, o) in outs {
+            st.history_steps += 1;
+            if o != canon_out {
+                viols.push(Violation::new("pca.fit.calling_forms_differ", format!("{} gives a different model / outcome than fit(&Dataset::from(records))", name), cj()));
+            }
+        }
+        // weights: PCA does not use them (statement: all record matrices), so any weight vector - also
+        // one with exact zeros, or all zeros - must give the bit-identical model (and no "empty" error)
+        let weightings: Vec<(&str, Vec<f32>)> = vec![
+            ("all weights 1", vec![1.0; n]),
+            ("one weight exactly 0", (0..n).map(|i| if i == n / 2 { 0.0 } else { 1.0 }).collect()),
+            ("every second weight exactly 0", (0..n).map(|i| (i % 2) as f32).collect()),
+            ("all weights 0", vec![0.0; n]),
+            ("non-uniform weights", (0..n).map(|i| 0.25 + i as f32).collect()),
+        ];
+        for (name, w) in weightings {
+            st.history_steps += 1;
+            let dsw = DatasetBase::from(a.clone()).with_weights(ndarray::Array1::from(w));
+            let (o, mw) = (bits_of(guarded(|| canon.fit(&dsw))), guarded(|| canon.fit(&dsw.view())));
+            if o != canon_out || bits_of(mw) != canon_out {
+                viols.push(Violation::new(
+                    "pca.fit.depends_on_weights",
+                    format!("fit of the dataset with {} (and of its view) gives a different model / outcome than the unweighted fit: {}", name, match &o { Err(e) => e.clone(), Ok(_) => "another model".into() }),
+                    cj(),
+                ));
+            }
+        }
+    }
+
+    // ---------------- (7) `dataset.to_owned()` / `dataset.view().to_owned()` of every record layout (the idiom
+    // when the caller only holds a view, because transform consumes its dataset): the copy must hold the
+    // same matrix, fit to the same model and project to the same coordinates
+    {
+        use ndarray::s;
+        let t1 = ndarray::Array1::from_iter((0..n).map(|i| 10.0 + i as f64));
+        let mut f_owned = Array2::<f64>::zeros((n, p).f());
+        f_owned.assign(&a);
+        let fm = Array2::from_shape_fn((p, n), |(j, i)| a[(i, j)]); // feature-major p x n buffer, standard layout
+        // (from_shape_fn, not `.slice(..).to_owned()`: ndarray's to_owned keeps negative strides)
+        let rev_rows = Array2::from_shape_fn((n, p), |(i, j)| a[(n - 1 - i, j)]);
+        let rev_feat = Array2::from_shape_fn((n, p), |(i, j)| a[(i, p - 1 - j)]);
+        let scale = a.iter().fold(0.0f64, |m, v| m.max(v.abs()));
+        type Src = (Vec<isize>, Result<Vec<Vec<u64>>, String>);
+        let mut check = |name: &str, owned: DatasetBase<Array2<f64>, ndarray::Array1<f64>>, src: &Src, viols: &mut Vec<Violation>| {
+            st.history_steps += 1;
+            if owned.records() != &a || owned.targets() != &t1 {
+                viols.push(Violation::new(
+                    "pca.transform.calling_forms_differ",
+                    format!("{} does not hold the same records / targets as the dataset it was copied from (first row {:?} vs {:?})", name, owned.records().row(0), a.row(0)),
+                    cj(),
+                ));
+                return;
+            }
+            // same memory layout as the source -> the fit is the identical computation: bit-identical outcome
+            // (another layout is the layout dimension of the fit cases, with the full oracle)
+            if owned.records().strides() == &src.0[..] {
+                let o = bits_of(guarded(|| canon.fit(&owned)));
+                if o != src.1 {
+                    viols.push(Violation::new("pca.fit.calling_forms_differ", format!("fit(&{}) gives a different model / outcome than fit on the dataset it was copied from", name), cj()));
+                }
+            }
+            // same values -> projecting them gives the same coordinates (up to the rounding of another stride pattern)
+            match guarded(|| model.transform(owned).records) {
+                Ok(z) => {
+                    let zmax = za.iter().fold(0.0f64, |m, v| m.max(v.abs()));
+                    let bad = z.shape() != za.shape() || z.iter().zip(za.iter()).any(|(u, v)| !((u - v).abs() <= 1e-12 * zmax.max(scale)));
+                    if bad {
+                        viols.push(Violation::new("pca.transform.calling_forms_differ", format!("transform({}) differs from predict(&array) on the same records", name), cj()));
+                    }
+                }
+                Err(msg) => viols.push(Violation::new("pca.transform.panic", format!("transform of {} panicked: {}", name, msg), cj())),
+            }
+        };
+        let r = guarded(|| {
+            let d_std = DatasetBase::new(a.clone(), t1.clone());
+            let d_f = DatasetBase::new(f_owned.clone(), t1.clone());
+            let d_t = DatasetBase::new(fm.t(), t1.clone());
+            let d_rr = DatasetBase::new(rev_rows.slice(s![..;-1, ..]), t1.clone());
+            let d_rf = DatasetBase::new(rev_feat.slice(s![.., ..;-1]), t1.clone());
+            if p > 1 && (d_rf.records().strides()[1] != -1 || d_rr.records().strides()[0] >= 0 || d_t.records().strides()[0] != 1) {
+                println!("MACHINERY-ERROR the layouted datasets of the to_owned family do not have the intended strides");
+                std::process::exit(2);
+            }
+            let src = |strides: &[isize], o: Result<Vec<Vec<u64>>, String>| -> Src { (strides.to_vec(), o) };
+            let srcs = vec![
+                src(d_std.records().strides(), bits_of(guarded(|| canon.fit(&d_std)))),
+                src(d_f.records().strides(), bits_of(guarded(|| canon.fit(&d_f)))),
+                src(d_t.records().strides(), bits_of(guarded(|| canon.fit(&d_t)))),
+                src(d_rr.records().strides(), bits_of(guarded(|| canon.fit(&d_rr)))),
+                src(d_rf.records().strides(), bits_of(guarded(|| canon.fit(&d_rf)))),
+            ];
+            let list = vec![
+                ("standard dataset.to_owned()", d_std.to_owned(), 0),
+                ("standard dataset.view().to_owned()", d_std.view().to_owned(), 0),
+                ("column-major dataset.to_owned()", d_f.to_owned(), 1),
+                ("column-major dataset.view().to_owned()", d_f.view().to_owned(), 1),
+                ("transposed-view dataset.to_owned()", d_t.to_owned(), 2),
+                ("transposed-view dataset.view().to_owned()", d_t.view().to_owned(), 2),
+                ("reversed-row-view dataset.to_owned()", d_rr.to_owned(), 3),
+                ("reversed-row-view dataset.view().to_owned()", d_rr.view().to_owned(), 3),
+                ("reversed-feature-view dataset.to_owned()", d_rf.to_owned(), 4),
+                ("reversed-feature-view dataset.view().to_owned()", d_rf.view().to_owned(), 4),
+            ];
+            (srcs, list)
+        });
+        match r {
+            Ok((srcs, list)) => {
+                for (name, owned, i) in list {
+                    check(name, owned, &srcs[i], viols);
+                }
+            }
+            Err(msg) => viols.push(Violation::new("pca.transform.panic", format!("dataset.to_owned() panicked: {}", msg), cj())),
         }
     }
     st
@@ -1122,7 +1338,10 @@ fn replay_value(v: &Value) -> Vec<Violation> {
 
 const M: i64 = 23;
 /// generator vectors of the rank-1 lattices ((i+1) * g_j mod 23) - 11
-const GENS: [[i64; 5]; 4] = [[1, 5, 7, 11, 13], [2, 3, 9, 14, 17], [4, 6, 10, 15, 19], [8, 12, 16, 18, 21]];
+/// (columns 5..9 added for p in {6,7,9}; no two generators of a row sum to 23, which would make two
+/// columns exact affine images of each other - rows 1 and 2 have such a pair among their first five,
+/// kept as it was: those p = 5 members are rank deficient and fall under the domain predicate)
+const GENS: [[i64; 9]; 4] = [[1, 5, 7, 11, 13, 17, 19, 2, 3], [2, 3, 9, 14, 17, 1, 4, 5, 7], [4, 6, 10, 15, 19, 1, 2, 3, 5], [8, 12, 16, 18, 21, 1, 3, 4, 6]];
 const ANGLES: [[f64; 4]; 4] = [[0.5, 1.1, 0.3, 0.8], [0.2, 0.7, 1.3, 0.4], [1.0, 0.25, 0.6, 1.2], [0.75, 0.35, 0.9, 0.15]];
 const AXIS_SCALES: [f64; 5] = [1.0, 10.0, 100.0, 1.0, 10.0];
 const MIXED_SCALES: [f64; 5] = [1e-3, 1.0, 1e3, 1e-3, 1.0];
@@ -1141,7 +1360,7 @@ fn rotate(x: &Mat, v: usize) -> Mat {
         .map(|r| {
             let mut r = r.clone();
             for j in 0..r.len().saturating_sub(1) {
-                let (c, s) = (ANGLES[v][j].cos(), ANGLES[v][j].sin());
+                let (c, s) = (ANGLES[v][j % 4].cos(), ANGLES[v][j % 4].sin());
                 let (a, b) = (r[j], r[j + 1]);
                 r[j] = c * a - s * b;
                 r[j + 1] = s * a + c * b;
@@ -1185,7 +1404,7 @@ fn catalogue(n: usize, p: usize, v: usize) -> Vec<(String, Mat)> {
                             let mut s = en::jitter(i + 3 * v, j);
                             for l in 0..r {
                                 let t = (((i as i64 + 1) * GENS[v][l + 1]) % M - (M - 1) / 2) as f64;
-                                s += t * LOAD[l][j];
+                                s += t * LOAD[l][j % 5] * (1.0 + (j / 5) as f64);
                             }
                             s
                         })
@@ -1241,12 +1460,12 @@ fn main() {
     let ctx = Ctx::new("C18", Level::Exploration);
     ctx.maybe_replay(&replay_value);
     ctx.set_rule(
-        "cases = (catalogue matrix, embedding size k, whitening); catalogue = for every n in {6,9,12,20} (quick) / 6..=20 (thorough), p in {1,2,3,5} (n > p) and every variant \
+        "cases = (catalogue matrix, embedding size k, whitening); catalogue = for every n in {6,9,12,20} (quick) / 6..=20 (thorough), p in {1,2,3,4,5,6,7,9} (n > p) and every variant \
          (1 quick / 4 thorough generator + angle + scale-permutation sets): rank-1 integer lattice ((i+1) g_j mod 23) - 11, exactly isotropic cross-polytope (+-2 e_j, n >= 2p) and its constant-jitter image, \
          axis scales 1:10:100, the same rotated by fixed Givens angles, rank-1 / rank-2 integer factor models + constant jitter, offset 1e3, offset +-1e3 of the rotated one, all columns x 1e-3, all x 1e3, columns x (1e-3, 1, 1e3); \
          k = 1..p with whitening off and on (full oracle), k = 0 and k = p+1 (must be Err), 0 x p data for every k (must be Err). Every member is run. \
          evaluation = one fit with all assertions; non-trivial = a valid fit inside the domain predicate; out_of_domain = (matrix, k) whose k-th covariance eigenvalue is below 100 x the solver's documented null-space cut-off; \
-         Every fit case is run with the records in four memory layouts (standard, column-major owned, transposed view of a feature-major buffer, reversed-row view of a reversed copy): all oracles apply to each and the model must agree with the standard-layout fit.          Large-n family: n in {1024, 1025, 1500, 2048, 4097}, p in {2,3}, k in {1, p}, 2 (quick) / 4 (thorough) lattice members ((i+1) g_j mod 4099) - 2049, whole matrix projected in one call.          For rows {0, 1, n/2, 1023, 1024, n-2, n-1} the projection of the row alone must equal its row of the whole projection; predict_inplace twice into one buffer must equal predict.          Call histories (kind history; every catalogue member A with its successor B of the same shape, every k, whitening off/on; plus n = 1025 (quick) / 1025, 1500, 4097 (thorough) with k = p):          six ways of writing the same parameter set (decoy-then-real whiten, repeated, cloned, default) must be == / print as / fit like the canonical one; the same params object fitted on A, B, A; the same model projecting A, B, A and inverting z_A before / after B;          predict_inplace(A) into buffers pre-filled with NaN, +inf, 1e300, -answer, answer, the projection of B, another model's projection, and a B, A, B, A chain through one buffer; eight calling forms (array view, owned array, dataset, dataset view, owned dataset, transform of dataset / dataset view / unweighted dataset) - all compared BIT for bit.          distinct by construction (kind, family, variant, n, p, k, whitening, layout).",
+         Every fit case is run with the records in five memory layouts (standard, column-major owned, transposed view of a feature-major buffer, reversed-row view of a row-reversed copy, reversed-feature view of a feature-reversed copy): all oracles apply to each and the model must agree with the standard-layout fit.          Large-n family: n in {1024, 1025, 1500, 2048, 4097}, p in {2,3}, k in {1, p}, 2 (quick) / 4 (thorough) lattice members ((i+1) g_j mod 4099) - 2049, whole matrix projected in one call.          For rows {0, 1, n/2, 1023, 1024, n-2, n-1} the projection of the row alone must equal its row of the whole projection; predict_inplace twice into one buffer must equal predict.          Call histories (kind history; every catalogue member A with its successor B of the same shape, every k, whitening off/on; plus n = 1025 (quick) / 1025, 1500, 4097 (thorough) with k = p):          six ways of writing the same parameter set (decoy-then-real whiten, repeated, cloned, default) must be == / print as / fit like the canonical one; the same params object fitted on A, B, A; the same model projecting A, B, A and inverting z_A before / after B;          predict_inplace(A) into buffers pre-filled with NaN, +inf, 1e300, -answer, answer, the projection of B, another model's projection, and a B, A, B, A chain through one buffer; eight calling forms (array view, owned array, dataset, dataset view, owned dataset, transform of dataset / dataset view / unweighted dataset) - all compared BIT for bit.          distinct by construction (kind, family, variant, n, p, k, whitening, layout).",
     );
     ctx.assume("oracle = lvmc_core::refmath::jacobi_eig (plain f64 cyclic Jacobi) of the sample covariance with divisor n-1; its residual |C v - lambda v| <= 1e-12 lambda_1 is verified for every matrix (else MACHINERY-ERROR)");
     ctx.assume("tolerance 1e-6 (LOBPCG accuracy; TruncatedSvd precision 1e-5 / residual 1e-10) for everything that depends on the solver: orthonormality, alignment sin(angle), variances relative to lambda_1, whitened covariance, reconstruction relative to max |x - mean|");
@@ -1259,7 +1478,7 @@ fn main() {
 
     // ---------------- enumerate ----------------
     let ns: Vec<usize> = ctx.pick(vec![6usize, 9, 12, 20], (6usize..=20).collect());
-    let ps = [1usize, 2, 3, 5];
+    let ps = [1usize, 2, 3, 4, 5, 6, 7, 9];
     let variants = ctx.pick(1usize, 4usize);
     let mut cases: Vec<Case> = Vec::new();
     let mut n_matrices = 0u64;
@@ -1341,6 +1560,16 @@ fn main() {
                     cases.push(Case { kind: "history".into(), family: format!("{} | {}", family, fam_b), variant: 0, n, p, x: x.clone(), x_bits: bits(x), y: y.clone(), y_bits: bits(y), k: p, whiten, layout: "standard".into() });
                 }
             }
+        }
+    }
+    // observation outside the property statement (recorded, not judged): names of data riding along
+    {
+        let x = to_arr(&lattice(6, 2, 0), 2);
+        let ds = DatasetBase::new(x, ndarray::Array1::from_iter((0..6).map(|i| i as f64))).with_feature_names(vec!["a", "b"]).with_target_names(vec!["y"]);
+        if let Ok(Ok(m)) = guarded(|| Pca::params(1).fit(&ds)) {
+            let tr = m.transform(ds);
+            ctx.extra("observation_transform_output_target_names", json!(tr.target_names()));
+            ctx.extra("observation_transform_output_feature_names", json!(tr.feature_names()));
         }
     }
     ctx.extra("history_cases", json!(n_history));
